@@ -4,7 +4,8 @@
 (* (harness/C10_manifest, harness/C10_arvados, harness/C10_python) against *)
 (* ManifestContract.  Events:                                              *)
 (*  {"ev":"reset","scn":id,"codec":c,"streams":[...],"mut":"none"|kind}    *)
-(*  {"ev":"load","kind":"ok"|"error"|"panic"|"hang","paths":[[byte..]..]}  *)
+(*  {"ev":"load","kind":"ok"|"error"|"panic"|"hang","paths":[[byte..]..],  *)
+(*        "reads":[{"kind":k,"n":bytes}..]}                                *)
 (*  {"ev":"file","path":[..],"kind":k,                                     *)
 (*        "obs":[{"via":..,"start":s,"n":n|-1,"segs":[[id,off,len]..]}..]} *)
 (*  {"ev":"out","src":[..],"rel":[..],"slash":b,"kind":k,"out":[stream..]} *)
@@ -35,14 +36,14 @@ TraceReset == /\ IsEvent("reset")
               /\ skipping' = FALSE
 
 Allowed(e) ==
-    CASE e.ev = "load" -> LoadOK(e.kind, e.paths)
+    CASE e.ev = "load" -> LoadOK(e.kind, e.paths, e.reads)
       [] e.ev = "file" -> FileOK(e.path, e.kind, e.obs)
       [] e.ev = "out"  -> OutOK(e.src, e.rel, e.slash, e.kind, e.out)
       [] e.ev = "pdh"  -> PdhOK(e.got, e.want)
 
 \* clauses that go beyond the statement: failing one of them is printed as <<"DRIFT_LINE", l>> and changes nothing
 DriftOK(e) ==
-    CASE e.ev = "out" -> OutHintsOK(e.out)
+    CASE e.ev = "out" -> OutHintsOK(e.out) /\ OutConventionOK(e.src, e.rel, e.slash, e.out)
       [] e.ev = "pdh" -> DigestsOK(e.dkind, e.blocks)
       [] OTHER -> TRUE
 
@@ -54,8 +55,8 @@ TraceStep == /\ l <= Len(Trace)
              /\ l' = l + 1
              /\ IF Allowed(Trace[l])
                 THEN /\ skipping' = FALSE
-                     /\ DriftOK(Trace[l]) \/ PrintT(<<"DRIFT_LINE", l>>)
-                     /\ IF Trace[l].ev = "load" THEN Load(Trace[l].kind, Trace[l].paths) ELSE UNCHANGED cvars
+                     /\ IF DriftOK(Trace[l]) THEN TRUE ELSE PrintT(<<"DRIFT_LINE", l>>)
+                     /\ IF Trace[l].ev = "load" THEN Load(Trace[l].kind, Trace[l].paths, Trace[l].reads) ELSE UNCHANGED cvars
                 ELSE /\ PrintT(<<"REJECTED_LINE", l>>)
                      /\ skipping' = TRUE
                      /\ UNCHANGED cvars
